@@ -150,18 +150,6 @@ package expressions
 
 //@ typeinv expressions.context: forall(k, "Str", has(self.Config.filters, k) ==> kind(mapget(self.Config.filters, k)) == reflect.Func)
 
-// Call converts the arguments to the filter's parameter types and calls it through
-// reflection; the filter itself is outside the contracts. More arguments than parameters is
-// a CallParityError (proved on convertCallArguments).
-//@ func values.Call
-//@ unverified
-//@ props C08 C01
-//@ assigns *
-//@ panics values.TypeError
-//@ ensures cells: @evalframe
-//@ ensures parityErr: is(result1, *values.CallParityError) ==> pl_ptr(result1) != 0
-//@ ensures parity: !tvariadic(typeof(rv_val(fn))) && len(args) > tnumin(typeof(rv_val(fn))) ==> result1 != nil
-
 // x | f: a, b: the filter is looked up by name (unknown: UndefinedFilter), the receiver and
 // then each argument expression are evaluated once, in order, in the current bindings, and
 // the filter is called once with exactly those values.
